@@ -20,8 +20,21 @@ type MxResult struct {
 var mxCounter int
 
 // RunMurex executes a block in a fresh function-scoped fork of the shell
-// process (same flags as the repo's own test helper) with a timeout.
+// process (same flags as the repo's own test helper) with a timeout. A run that
+// times out is re-examined once with a much longer deadline before it is
+// reported as a hang: a loaded machine must not turn a slow run into an alarm,
+// while a real hang still hangs.
 func RunMurex(block string, timeout time.Duration) MxResult {
+	r := runMurexOnce(block, timeout)
+	if r.Timeout {
+		if r2 := runMurexOnce(block, 5*timeout+20*time.Second); !r2.Timeout {
+			return r2
+		}
+	}
+	return r
+}
+
+func runMurexOnce(block string, timeout time.Duration) MxResult {
 	initMurex()
 	mxCounter++
 	fork := lang.ShellProcess.Fork(lang.F_FUNCTION | lang.F_NEW_MODULE | lang.F_NO_STDIN | lang.F_CREATE_STDOUT | lang.F_CREATE_STDERR)
